@@ -400,6 +400,11 @@ pub fn parse_name_and_address(
                 ),
             });
         }
+        if line.is_empty() {
+            return Err(ParseError::InvalidFormat {
+                message: format!("{} line {} is empty", field_name, i - start_idx + 1),
+            });
+        }
         parse_swift_chars(line, &format!("{} line {}", field_name, i - start_idx + 1))?;
         name_and_address.push(line.to_string());
     }
